@@ -94,6 +94,12 @@ pub enum Act {
         vamm: String,
         amt: u128,
     },
+    /// `a` with native coins attached although the operation takes none (or more than it takes); in a cw20 world it is
+    /// just `a`
+    Funded {
+        a: Box<Act>,
+        funds: u128,
+    },
     /// any engine operation with a free-form vAMM string (crafted key collisions): op is one of open_buy, open_sell,
     /// close, withdraw, liquidate, pay_funding; `trader` is the liquidation target; `amt` the margin / amount
     RawOp {
@@ -148,6 +154,7 @@ impl Act {
             Act::VammCaps { by, v, oi_cap, holding_cap } => Act::VammCaps { by, v, oi_cap: o(&oi_cap), holding_cap: o(&holding_cap) },
             Act::DepRaw { by, vamm, amt } => Act::DepRaw { by, vamm, amt: amt * k },
             Act::RawOp { by, op, vamm, trader, amt } => Act::RawOp { by, op, vamm, trader, amt: amt * k },
+            Act::Funded { a, funds } => Act::Funded { a: Box::new(a.scaled(k)), funds: funds * k },
             Act::EngConfig { by, imr, mmr, plr, lf } => Act::EngConfig { by, imr: o(&imr), mmr: o(&mmr), plr: o(&plr), lf: o(&lf) },
             Act::VammConfig { by, v, toll, spread, fluct, twap } => Act::VammConfig { by, v, toll: o(&toll), spread: o(&spread), fluct: o(&fluct), twap },
             a => a,
@@ -189,6 +196,9 @@ impl Act {
     }
     /// account that signs the transaction (None for environment steps)
     pub fn sender(&self) -> Option<&str> {
+        if let Act::Funded { a, .. } = self {
+            return a.sender();
+        }
         match self {
             Act::Open { t, .. } | Act::Close { t, .. } | Act::Dep { t, .. } | Act::Wd { t, .. } => {
                 Some(t)
@@ -210,6 +220,9 @@ impl Act {
         }
     }
     pub fn is_engine_tx(&self) -> bool {
+        if let Act::Funded { a, .. } = self {
+            return a.is_engine_tx();
+        }
         matches!(
             self,
             Act::Open { .. }
@@ -223,6 +236,9 @@ impl Act {
         )
     }
     pub fn kind(&self) -> &'static str {
+        if let Act::Funded { a, .. } = self {
+            return a.kind();
+        }
         match self {
             Act::Open { .. } => "open",
             Act::Close { .. } => "close",
@@ -241,6 +257,7 @@ impl Act {
             Act::VammCaps { .. } => "vamm_caps",
             Act::DepRaw { .. } => "deposit_raw",
             Act::RawOp { .. } => "raw_op",
+            Act::Funded { .. } => unreachable!(),
             Act::EngConfig { .. } => "engine_config",
             Act::VammConfig { .. } => "vamm_config",
             Act::Note(_) => "note",
@@ -339,6 +356,10 @@ pub fn apply(w: &mut World, a: &Act) -> Outcome {
 
 /// Native collateral with an explicit amount attached (C13: exactly what the cw20 twin pulled).
 pub fn apply_with_funds(w: &mut World, a: &Act, funds: u128) -> Outcome {
+    apply_with_funds_fault(w, a, funds, None)
+}
+
+pub fn apply_with_funds_fault(w: &mut World, a: &Act, funds: u128, fail_at: Option<u32>) -> Outcome {
     w.tap.reset(None);
     let eng = w.engine.clone();
     match a {
@@ -351,23 +372,41 @@ pub fn apply_with_funds(w: &mut World, a: &Act, funds: u128) -> Outcome {
                 leverage: Uint128::new(*lev),
                 base_asset_limit: Uint128::new(*limit),
             };
-            w.exec_full(t, &eng, &msg, funds, None)
+            w.exec_full(t, &eng, &msg, funds, fail_at)
         }
         Act::Close { t, v, limit } => {
             let va = vamm_addr(w, *v);
             let msg = EngineExec::ClosePosition { vamm: va.to_string(), quote_asset_limit: Uint128::new(*limit) };
-            w.exec_full(t, &eng, &msg, funds, None)
+            w.exec_full(t, &eng, &msg, funds, fail_at)
         }
         Act::Dep { t, v, amt } => {
             let va = vamm_addr(w, *v);
             let msg = EngineExec::DepositMargin { vamm: va.to_string(), amount: Uint128::new(*amt) };
-            w.exec_full(t, &eng, &msg, funds, None)
+            w.exec_full(t, &eng, &msg, funds, fail_at)
         }
-        _ => apply_fault(w, a, None),
+        Act::Wd { t, v, amt } => {
+            let va = vamm_addr(w, *v);
+            let msg = EngineExec::WithdrawMargin { vamm: va.to_string(), amount: Uint128::new(*amt) };
+            w.exec_full(t, &eng, &msg, funds, fail_at)
+        }
+        Act::Liq { by, t, v, limit } => {
+            let va = vamm_addr(w, *v);
+            let msg = EngineExec::Liquidate { vamm: va.to_string(), trader: t.clone(), quote_asset_limit: Uint128::new(*limit) };
+            w.exec_full(by, &eng, &msg, funds, fail_at)
+        }
+        Act::Fund { by, v } => {
+            let va = vamm_addr(w, *v);
+            let msg = EngineExec::PayFunding { vamm: va.to_string() };
+            w.exec_full(by, &eng, &msg, funds, fail_at)
+        }
+        _ => apply_fault(w, a, fail_at),
     }
 }
 
 pub fn apply_fault(w: &mut World, a: &Act, fail_at: Option<u32>) -> Outcome {
+    if let Act::Funded { a: inner, funds } = a {
+        return if w.token.is_none() { apply_with_funds_fault(w, inner, *funds, fail_at) } else { apply_fault(w, inner, fail_at) };
+    }
     w.tap.reset(None);
     let native = w.token.is_none();
     let eng = w.engine.clone();
@@ -547,6 +586,7 @@ pub fn apply_fault(w: &mut World, a: &Act, fail_at: Option<u32>) -> Outcome {
             let msg = EngineExec::DepositMargin { vamm: vamm.clone(), amount: Uint128::new(*amt) };
             w.exec_full(by, &eng, &msg, if native { *amt } else { 0 }, fail_at)
         }
+        Act::Funded { .. } => unreachable!(),
         Act::RawOp { by, op, vamm, trader, amt } => {
             use margined_perp::margined_engine::Side;
             let d = w.d;
